@@ -81,6 +81,13 @@ def judge_valnone(frame: bytes, ck: bytes, mode, pbf=1):
     a, b = attrs(good), attrs(got)
     if good.identity != got.identity or repr(a) != repr(b) or list(a) != list(b):
         return "viol", [("valnone_parses_differently", f"x={x.hex()[:64]}")]
+    # the same message: what it serializes to, and its payload / length, are those of the intact frame
+    try:
+        same = got.serialize() == good.serialize() and got.payload == good.payload and got.length == good.length
+    except Exception as e:  # noqa: BLE001
+        return "viol", [(f"valnone_message_unusable|{type(e).__name__}", f"x={x.hex()[:64]}")]
+    if not same:
+        return "viol", [("valnone_message_serializes_differently", f"x={x.hex()[:64]}: {got.serialize().hex()[:64]}")]
     return "ok", []
 
 
